@@ -22,7 +22,31 @@ func timedCase(c *vlib.Ctx, kind int, i int, r *vlib.Rand) {
 		return
 	}
 	caseID := fmt.Sprintf("%s#%d", section, i)
+	// the whole case runs on its own goroutine: every library call in it (put, clear, timed
+	// get, size) is thereby bounded by the watchdog
+	var step atomic.Value
+	step.Store("start")
+	var gaveUp int32
+	o := guardCall(curWatchdog()+time.Second, func() { timedBody(c, kind, section, caseID, r, &step, &gaveUp) })
+	o.rethrow()
+	if o.Runaway {
+		c.Fail([]string{"RequestQueue", "RequestDoubleQueue"}[kind]+".PutForce:eviction-runaway", "Overflowed was invoked more than 64 times in a case that puts at most 4 elements", map[string]interface{}{"case": caseID, "step": step.Load()})
+		abandonSection(c, section, caseID+": eviction loop aborted")
+		return
+	}
+	if !o.Returned {
+		atomic.StoreInt32(&gaveUp, 1)
+		atomic.AddInt32(&stallsSeen, 1)
+		c.Inconclusive(caseID, fmt.Sprintf("library call did not return within the watchdog %v (at: %v); goroutine abandoned", watchdog, step.Load()))
+		abandonSection(c, section, fmt.Sprintf("%s: call did not return (at: %v)", caseID, step.Load()))
+	}
+}
+
+func timedBody(c *vlib.Ctx, kind int, section, caseID string, r *vlib.Rand, step *atomic.Value, gaveUp *int32) {
 	for _, t := range timedTs {
+		if atomic.LoadInt32(gaveUp) != 0 {
+			return
+		}
 		caps := [2]int{[]int{0, 1, 2, 5}[r.Intn(4)], []int{0, 1, 2, 5}[r.Intn(4)]}
 		q := newQ(kind, caps)
 		T := q.name()
@@ -31,6 +55,7 @@ func timedCase(c *vlib.Ctx, kind int, i int, r *vlib.Rand) {
 		variant := []string{"empty", "empty", "non-empty", "late-producer", "after-clear"}[r.Intn(5)]
 		lane := r.Intn(q.lanes())
 		id := mkID(lane, 0, 1+r.Intn(1000))
+		step.Store(fmt.Sprintf("%s t=%d %s: set-up", T, t, variant))
 		var prodDone chan struct{}
 		switch variant {
 		case "non-empty":
@@ -54,19 +79,12 @@ func timedCase(c *vlib.Ctx, kind int, i int, r *vlib.Rand) {
 		// the verdict would hinge on the agreement of two different clocks to a few microseconds
 		for time.Now().UnixNano()%1e6 > 9e5 {
 		}
-		var v interface{}
-		var el time.Duration
-		o := guardCall(curWatchdog(), func() {
-			t0 := time.Now()
-			v = q.getTimeout(t)
-			el = time.Since(t0)
-		})
-		o.rethrow()
-		if !o.Returned {
-			// v and el belong to the abandoned goroutine from here on
-			atomic.AddInt32(&stallsSeen, 1)
-			c.Inconclusive(caseID, fmt.Sprintf("GetTimeout(%d) (%s) did not return within the watchdog %v; goroutine abandoned", t, variant, watchdog))
-			abandonSection(c, section, caseID+": GetTimeout did not return")
+		step.Store(fmt.Sprintf("%s t=%d %s: GetTimeout", T, t, variant))
+		t0 := time.Now()
+		v := q.getTimeout(t)
+		el := time.Since(t0)
+		step.Store(fmt.Sprintf("%s t=%d %s: after GetTimeout", T, t, variant))
+		if atomic.LoadInt32(gaveUp) != 0 {
 			return
 		}
 		detail := map[string]interface{}{"type": T, "variant": variant, "timeout_ms": t, "elapsed_ns": el.Nanoseconds(), "returned": fmt.Sprint(v)}
@@ -87,12 +105,8 @@ func timedCase(c *vlib.Ctx, kind int, i int, r *vlib.Rand) {
 			c.Count("timed_element_returns", 1)
 		}
 		if prodDone != nil {
-			if !waitDone(prodDone) {
-				atomic.AddInt32(&stallsSeen, 1)
-				c.Inconclusive(caseID, fmt.Sprintf("the late producer's Put did not return within the watchdog %v", watchdog))
-				abandonSection(c, section, caseID+": Put did not return")
-				return
-			}
+			step.Store(fmt.Sprintf("%s t=%d %s: waiting for the late producer's Put", T, t, variant))
+			<-prodDone // bounded by the case's watchdog
 			if v == nil {
 				if got := q.getNoWait(); got != interface{}(id) {
 					c.Fail(T+":conservation", fmt.Sprintf("element put during an expired GetTimeout is not in the queue afterwards (got %v)", got), detail)
